@@ -1,6 +1,6 @@
 (* C08 — property theorems (statements only; proofs live in Proofs*.v).  See notes/C08.md for the status of each. *)
 From Coq Require Import List ZArith QArith Qabs Bool.
-Require Import QV.C08.Model QV.C08.Spec QV.C08.Wf QV.C08.Proofs QV.C08.ProofsVec QV.C08.ProofsRev QV.C08.ProofsConst QV.C08.ProofsTotal QV.C08.ProofsProper QV.C08.ProofsCtor QV.C08.Hist QV.C08.ProofsHist QV.C08.ProofsTrafo QV.C08.ProofsConstT QV.C08.ProofsTotalT QV.C08.ProofsTable QV.C08.ProofsPar QV.C08.ProofsOp QV.C08.ProofsFlat QV.C08.ProofsDen QV.C08.ProofsSimple QV.C08.ProofsHistT QV.C08.Lin QV.C08.ProofsLin QV.C08.ProofsLinDen QV.C08.ProofsDedup QV.C08.ProofsLinHist QV.C08.ProofsR2 QV.C08.ProofsMirror QV.C08.ProofsOkb QV.C08.ProofsSubset QV.C08.ProofsRecipe QV.C08.ProofsRecipeT QV.C08.ProofsRecipeR QV.C08.ProofsMirrorT QV.C08.ProofsTg QV.C08.ProofsSubsetK QV.C08.ProofsRecipeG QV.C08.ProofsExcl QV.C08.Guards.
+Require Import QV.C08.Model QV.C08.Spec QV.C08.Wf QV.C08.Proofs QV.C08.ProofsVec QV.C08.ProofsRev QV.C08.ProofsConst QV.C08.ProofsTotal QV.C08.ProofsProper QV.C08.ProofsCtor QV.C08.Hist QV.C08.ProofsHist QV.C08.ProofsTrafo QV.C08.ProofsConstT QV.C08.ProofsTotalT QV.C08.ProofsTable QV.C08.ProofsPar QV.C08.ProofsOp QV.C08.ProofsFlat QV.C08.ProofsDen QV.C08.ProofsSimple QV.C08.ProofsHistT QV.C08.Lin QV.C08.ProofsLin QV.C08.ProofsLinDen QV.C08.ProofsDedup QV.C08.ProofsLinHist QV.C08.ProofsR2 QV.C08.ProofsMirror QV.C08.ProofsOkb QV.C08.ProofsSubset QV.C08.ProofsRecipe QV.C08.ProofsRecipeT QV.C08.ProofsRecipeR QV.C08.ProofsMirrorT QV.C08.ProofsTg QV.C08.ProofsSubsetK QV.C08.ProofsRecipeG QV.C08.ProofsExcl QV.C08.Guards QV.C08.ProofsConstClosed.
 Import ListNotations.
 Open Scope Q_scope.
 
@@ -29,6 +29,13 @@ Theorem C08_constant : forall w, okb w = true -> forall c v t,
   exists v', sample w c t = Some v' /\ v' == v.
 Proof. exact cv_sound. Qed.
 Print Assumptions C08_constant.
+(* round 5: the guard [t < duration] excludes t = duration for EVERY class, the refuted class is sequence / repetition only:
+   without sequence / repetition nodes ([closedT]) the clause holds on the closed interval *)
+Theorem C08_constant_closed : forall w, okb w = true -> closedT w = true -> forall c v t,
+  inb c (channels w) = true -> cv w c = Some v -> 0 <= t -> t <= duration w ->
+  exists v', sample w c t = Some v' /\ v' == v.
+Proof. exact cv_sound_closed. Qed.
+Print Assumptions C08_constant_closed.
 (* the full statement fails at t = duration on the unchanged code: unsafe_sample of a plain sequence of equal constants *)
 Theorem C08_constant_refuted_at_duration :
   exists w c t v, okb w = true /\ cv w c = Some v /\ Qeq_bool t (duration w) = true /\ sample w c t = None /\ gs w c t = Some v.
